@@ -2,7 +2,7 @@
    order-independent.  Property theorems only; each is closed by [exact] of a
    lemma proved in C14/Lemmas.v or C14/SmallScope.v and followed by its assumptions. *)
 From Coq Require Import ZArith List Bool.
-From V Require Import C14.Model C14.Laws C14.Lemmas C14.SmallScope.
+From V Require Import C14.Model C14.Laws C14.Lemmas C14.SmallScope C14.SmallScope2.
 Import ListNotations.
 Open Scope Z_scope.
 
@@ -62,11 +62,65 @@ Theorem C14_incremental_equals_scratch_small_scope : forall h,
 Proof. exact incremental_equals_scratch_small_scope. Qed.
 Print Assumptions C14_incremental_equals_scratch_small_scope.
 
-(* --- refuted at full strength: the faithful model (as the code) restores Ready after an
-   unrelated successful update while a HyperNode still claims itself --- *)
+(* the same statement on a second universe: a four-tier chain h1<h2<h3<h4 and a leaf h5
+   that can hang under any of them *)
+Theorem C14_incremental_equals_scratch_small_scope2 : forall h,
+  guards_along v_env v_alphabet u_init h ->
+  let c := fold_left (cstep v_env) h u_init in
+  view_matches_spec v_env (c_objs c) (c_st c) = true /\
+  s_ready (c_st c) = true /\ s_fuel (c_st c) = false /\
+  views_agree (c_objs c) (c_st c) (scratch v_env (c_objs c)) = true.
+Proof. exact incremental_equals_scratch_small_scope2. Qed.
+Print Assumptions C14_incremental_equals_scratch_small_scope2.
+
+(* --- errors are reported (all states, all inputs): a failing UpdateHyperNode /
+   DeleteHyperNode leaves Ready = false; the two error sources of BuildHyperNodeCache --- *)
+Theorem C14_upd_error_not_ready : forall e s o s', upd e s o = (s', true) -> s_ready s' = false.
+Proof. exact upd_error_not_ready. Qed.
+Print Assumptions C14_upd_error_not_ready.
+
+Theorem C14_del_error_not_ready : forall e s nm s', del e s nm = (s', true) -> s_ready s' = false.
+Proof. exact del_error_not_ready. Qed.
+Print Assumptions C14_del_error_not_ready.
+
+Theorem C14_build_cycle_errors : forall f e s nm processed chain ancset,
+  pmem nm chain = true -> build (S f) e s nm processed chain ancset = (s, processed, true).
+Proof. exact build_cycle_errors. Qed.
+Print Assumptions C14_build_cycle_errors.
+
+Theorem C14_add_child_second_parent_errors : forall s parent c i p,
+  aget c (s_hn s) = Some i -> i_parent i = Some p -> p <> parent ->
+  add_child s parent c = (s, true).
+Proof. exact add_child_second_parent_errors. Qed.
+Print Assumptions C14_add_child_second_parent_errors.
+
+(* --- the code before the repairs violated the property (run_prefix); the repaired code
+   (run) does not, on the same inputs --- *)
+Theorem C14_d1_ready_restored_refuted : exists evs,
+  let objs := [mkObj 2 3 [MHyper 2]; mkObj 1 1 [MNode 5]]%positive in
+  bad_membership objs = true /\
+  s_ready (snd (run_prefix (mkEnv [] []) evs)) = true /\
+  s_ready (snd (run (mkEnv [] []) evs)) = false.
+Proof. exact d1_ready_restored_refuted. Qed.
+Print Assumptions C14_d1_ready_restored_refuted.
+
+Theorem C14_d3_gradient_crash_refuted : exists evs,
+  gradient (add_top (snd (run_prefix (mkEnv [] []) evs))) top_name 5 None = GCrash /\
+  exists l, gradient (add_top (snd (run (mkEnv [] []) evs))) top_name 5 None = GOk l.
+Proof. exact d3_gradient_crash_refuted. Qed.
+Print Assumptions C14_d3_gradient_crash_refuted.
+
+Theorem C14_d4_tier0_not_indexed_refuted : exists evs,
+  zget 0 (s_tier (snd (run_prefix (mkEnv [] []) evs))) = None /\
+  zget 0 (s_tier (snd (run (mkEnv [] []) evs))) = Some [1%positive].
+Proof. exact d4_tier0_not_indexed_refuted. Qed.
+Print Assumptions C14_d4_tier0_not_indexed_refuted.
+
+(* --- still refuted at full strength on the repaired code (known findings D5 / D7): a
+   doubly claimed member can stay unreported --- *)
 Theorem C14_bad_membership_not_ready_refuted : exists evs,
-  let s := snd (run (mkEnv [] []) evs) in
-  bad_membership [mkObj 2 3 [MHyper 2]; mkObj 1 1 [MNode 5]]%positive = true /\ s_ready s = true.
+  let objs := [mkObj 1 2 [MHyper 2]; mkObj 3 2 [MHyper 2]]%positive in
+  bad_membership objs = true /\ s_ready (snd (run (mkEnv [] []) evs)) = true.
 Proof. exact bad_membership_not_ready_refuted. Qed.
 Print Assumptions C14_bad_membership_not_ready_refuted.
 
